@@ -58,6 +58,9 @@ pub struct Interpreter<TStdlib: Stdlib, TStdIn: Input, TStdOut: Printer, TLpt1: 
 
     /// Holds addresses to RETURN to after a GOSUB
     go_sub_address_stack: Vec<usize>,
+    /// For every active SUB / FUNCTION call, the depth of `go_sub_address_stack` at the
+    /// time of the call: the GOSUBs below it belong to the callers.
+    go_sub_call_marks: Vec<usize>,
 
     /// Holds the current call stack
     stacktrace: Vec<Position>,
@@ -303,6 +306,17 @@ impl<TStdlib: Stdlib, TStdIn: Input, TStdOut: Printer, TLpt1: Printer>
         )
     }
 
+    /// Takes the most recent pending GOSUB of the running SUB / FUNCTION
+    /// (or of the main module): a RETURN does not see the GOSUBs of its callers.
+    fn pop_go_sub_address(&mut self) -> Option<usize> {
+        let floor = self.go_sub_call_marks.last().copied().unwrap_or(0);
+        if self.go_sub_address_stack.len() > floor {
+            self.go_sub_address_stack.pop()
+        } else {
+            None
+        }
+    }
+
     fn restore_stack_depths(&mut self, depths: StackDepths) {
         let (value_depth, var_path_depth, by_ref_depth) = depths;
         self.value_stack.truncate(value_depth);
@@ -331,6 +345,7 @@ impl<TStdlib: Stdlib, TStdIn: Input, TStdOut: Printer, TLpt1: Printer>
             context: Context::new(),
             return_address_stack: vec![],
             go_sub_address_stack: vec![],
+            go_sub_call_marks: vec![],
             register_stack: vec![Registers::new()],
             stacktrace: vec![],
             file_manager: FileManager::new(),
@@ -511,11 +526,16 @@ impl<TStdlib: Stdlib, TStdIn: Input, TStdOut: Printer, TLpt1: Printer>
             }
             Instruction::PushRet(address) => {
                 self.return_address_stack.push(*address);
+                self.go_sub_call_marks.push(self.go_sub_address_stack.len());
                 ctx.statement_stack_depths.push(None);
             }
             Instruction::PopRet => {
                 let address = self.return_address_stack.pop().unwrap();
                 ctx.opt_next_index = Some(address);
+                // a GOSUB that is still pending when its SUB / FUNCTION ends is over
+                if let Some(mark) = self.go_sub_call_marks.pop() {
+                    self.go_sub_address_stack.truncate(mark);
+                }
                 if ctx.statement_stack_depths.len() > 1 {
                     ctx.statement_stack_depths.pop();
                 }
@@ -524,7 +544,7 @@ impl<TStdlib: Stdlib, TStdIn: Input, TStdOut: Printer, TLpt1: Printer>
                 self.go_sub_address_stack.push(i);
                 ctx.opt_next_index = Some(address_or_label.address());
             }
-            Instruction::Return(opt_address) => match self.go_sub_address_stack.pop() {
+            Instruction::Return(opt_address) => match self.pop_go_sub_address() {
                 Some(address) => {
                     ctx.opt_next_index = Some(match opt_address {
                         Some(address_or_label) => address_or_label.address(),
@@ -558,6 +578,10 @@ impl<TStdlib: Stdlib, TStdIn: Input, TStdOut: Printer, TLpt1: Printer>
                 // when the error occurred are abandoned
                 self.context.pop_to_global();
                 self.return_address_stack.clear();
+                if let Some(mark) = self.go_sub_call_marks.first() {
+                    self.go_sub_address_stack.truncate(*mark);
+                }
+                self.go_sub_call_marks.clear();
                 self.stacktrace.clear();
                 self.function_result.clear();
                 ctx.statement_stack_depths.truncate(1);
